@@ -97,6 +97,22 @@ pub fn check_wm(ctx: &mut Ctx, wm: &WaveletMatrix, v: &[u64], idx: &[usize], val
             let want: Vec<(usize, usize)> = all[std::cmp::min(r, all.len())..std::cmp::min(all.len(), r + 3)].to_vec();
             ctx.expect_eq("wm.select_iter", || format!("select_iter({}, {}) first items on {}", r, val, desc()), &guard(|| wm.select_iter(r, val).take(3).collect::<Vec<(usize, usize)>>()), &want);
         }
+        // The same iterator through the other Iterator entry points (nth, skip, count, size_hint), also from ranks far past the end.
+        for &r in [0usize, occ.len() / 2, occ.len().saturating_sub(1), occ.len(), occ.len() + 1, n, n + 1, usize::MAX / 2, usize::MAX - 1, usize::MAX].iter() {
+            let rest: Vec<(usize, usize)> = all[std::cmp::min(r, all.len())..].to_vec();
+            for k in [0usize, 1, 2, 7] {
+                ctx.expect_eq("wm.select_iter.nth", || format!("select_iter({}, {}).nth({}) on {}", r, val, k, desc()), &guard(|| wm.select_iter(r, val).nth(k)), &rest.get(k).copied());
+            }
+            ctx.expect_eq("wm.select_iter.skip", || format!("select_iter({}, {}).skip(1).next() on {}", r, val, desc()), &guard(|| wm.select_iter(r, val).skip(1).next()), &rest.get(1).copied());
+            ctx.expect_eq("wm.select_iter.count", || format!("select_iter({}, {}).count() on {}", r, val, desc()), &guard(|| wm.select_iter(r, val).count()), &rest.len());
+            let hint = guard(|| wm.select_iter(r, val).size_hint());
+            ctx.checks += 1;
+            match hint {
+                // A hint that disagrees with the items is recorded, not judged: C04 speaks about the items.
+                Ok((lo, hi)) => if lo > rest.len() || hi.map(|h| h < rest.len()).unwrap_or(false) { ctx.count("info_unsound_size_hints", 1); },
+                Err(p) => ctx.violation("wm.select_iter.size_hint!panic", format!("select_iter({}, {}).size_hint() panicked ({}) on {}", r, val, p, desc())),
+            }
+        }
     }
 }
 
